@@ -226,7 +226,9 @@ Post_Unlink(S, x, y, destroy) ==
                !.ends = [e \in Links |-> IF e \in J THEN Without(Without(@[e], x), y) ELSE @[e]],
                !.vl   = [o \in Obj |-> IF o \in {x, y} THEN SelectSeq(@[o], LAMBDA e : e \notin J)
                                        ELSE @[o]]]
-  IN {Ok(S1, IF destroy THEN <<>> ELSE SetToSeqAsc(J))}
+  \* destroy=True returns None (<<>>); destroy=False returns A SET - encoded as <<0>> followed by its members - even
+  \* when nothing joined x and y (an empty set is not None: "returning exactly those when destroy=False")
+  IN {Ok(S1, IF destroy THEN <<>> ELSE <<0>> \o SetToSeqAsc(J))}
 
 -----------------------------------------------------------------------------
 (* Universe membership *)
